@@ -29,7 +29,7 @@ type mgrNode struct {
 	NoChan   bool   `json:"nochan,omitempty"`   // no replication channel: claims to be a master
 	Writable bool   `json:"writable,omitempty"` // read_only = 0
 	Stopped  bool   `json:"stopped,omitempty"`  // replication threads stopped
-	Health   string `json:"health,omitempty"`   // "" = what a health checker would write | missing | pingfail | fsro | crash
+	Health   string `json:"health,omitempty"`   // "" = what a health checker would write | missing | pingfail | fsro | crash | oldformat
 	Prio     int64  `json:"prio,omitempty"`
 	Cut      bool   `json:"cut,omitempty"` // the manager cannot reach this (running) server; its own mysync can
 }
@@ -166,6 +166,9 @@ func mgrHealth(app *App, w *vk.World, h string, kind string) *nodestate.NodeStat
 	switch kind {
 	case "pingfail":
 		ns = &nodestate.NodeState{CheckBy: h, CheckAt: time.Now(), PingOk: false}
+	case "oldformat":
+		// a record written by a mysync version from before replication settings were reported
+		ns.ReplicationSettings = nil
 	case "fsro":
 		ns.IsFileSystemReadonly = true
 	case "crash":
@@ -197,6 +200,7 @@ func mgrFailed(app *App) map[string]int64 {
 }
 
 func mgrRun(in mgrIn) mgrOut {
+	vk.Running("mgr", in)
 	var out mgrOut
 	dir, _ := os.MkdirTemp("", "mgr")
 	defer os.RemoveAll(dir)
@@ -765,6 +769,9 @@ func mgrFaultVariants(o *vk.Out, in mgrIn, out mgrOut, all bool) []mgrIn {
 					}
 				}
 				fin.Fault = &vk.Fault{Host: e.Host, Kind: e.Kind, Nth: nth, Action: []string{"err:1105", "drop", "applydrop"}[o.Rng.Intn(3)]}
+				if e.Kind == "SShowReplica" && o.Rng.Intn(3) == 0 {
+					fin.Fault.Action = "unchannel" // the channel is removed from outside right before the status is read
+				}
 			} else if op := map[string]string{"DcsGet": "get", "DcsSet": "set", "DcsCreate": "create", "DcsChildren": "children", "DcsDelete": "delete"}[e.Kind]; op != "" {
 				nth := 0
 				for _, p := range visited {
